@@ -849,8 +849,9 @@ impl BuiltinTypedArray {
         // 11. For each element e of kept, do
         for (n, e) in kept.iter().enumerate() {
             // a. Perform ! Set(A, ! ToString(𝔽(n)), e, true).
-            a.set(n, e.clone(), true, context)
-                .js_expect("Set cannot fail here")?;
+            // NOTE: `e` is `undefined` when the callback shrank the buffer, which `ToBigInt`
+            //       rejects for BigInt arrays, so this can throw.
+            a.set(n, e.clone(), true, context)?;
             // b. Set n to n + 1.
         }
 
